@@ -83,6 +83,10 @@ def step (_ : Unit) (op impl : String) : Unit × DrvOut :=
         | _ => "FAIL unparsable implementation answer"
       ((), { model, spec })
     | none => ((), { model := "bad-op" })
+  | ["loadrt", _, _] =>
+    ((), { model := if impl == "loaderr" then impl else "eq",
+           spec := if impl == "eq" || impl == "loaderr" then "ok"
+                   else "FAIL a loaded configuration (file + environment) read through the API cannot be written back: " ++ impl })
   | ["apijson", _, _] =>
     ((), { model := "-", spec := if impl == "panic" then "FAIL the API JSON decoder panics on a hostile parameter value" else "ok" })
   | ["ipn", _] =>
